@@ -192,7 +192,8 @@ def make_case(rng, i):
          'pbc': [bool(x) for x in rng.integers(0, 2, 3)] if i % 4 else [True, True, True],
          'vel': (rng.integers(-16, 17, (n, 3)) / 8.0).tolist() if i % 2 == 0 else None,
          'q': (rng.integers(-8, 9, n) / 8.0).tolist(), 'mol': rng.integers(1, 4, n).tolist(),
-         'diameter': (rng.integers(1, 9, n) / 8.0).tolist(), 'density': (rng.integers(8, 80, n) / 8.0).tolist()}
+         'diameter': (rng.integers(1, 9, n) / 8.0).tolist(), 'density': (rng.integers(8, 80, n) / 8.0).tolist(),
+         'omega': (rng.integers(-16, 17, (n, 3)) / 8.0).tolist()}
     return d
 
 
@@ -201,6 +202,7 @@ def build_system(am, nu, d, style):
     props = {}
     if d['vel'] is not None:
         props['velocity'] = np.array(d['vel']) * factor(nu, 'velocity', style)
+        props['ang_velocity'] = np.array(d['omega']) / U(nu, UNITS[style]['velocity'][1])     # 1/time in the style's time unit
     fq = factor(nu, 'charge', style)
     if fq is not None:
         props['charge'] = np.array(d['q']) * fq
@@ -220,10 +222,11 @@ def sysrec(d, stylekey, stylename, units):
             'a': [I(x) for x in d['a']], 'b': [I(x) for x in d['b']], 'c': [I(x) for x in d['c']], 'o': [I(x) for x in d['o']], 'pbc': d['pbc'],
             'atoms': [[int(d['atype'][k]), int(d['mol'][k]), I(d['q'][k]), I(d['diameter'][k]), I(d['density'][k]), [I(x) for x in d['pos'][k]],
                        [I(x) for x in d['rel'][k]]] for k in range(n)],
-            'vel': [[I(x) for x in v] for v in d['vel']] if d['vel'] is not None else []}
+            'vel': [[I(x) for x in v] for v in d['vel']] if d['vel'] is not None else [],
+            'omega': [[I(x) for x in v] for v in d['omega']], 'nvel': 7 if 'sphere' in stylename else 4}
 
 
-STYLES = [('atomic', 'atomic'), ('charge', 'charge'), ('molecular', 'molecular'), ('full', 'full'), ('sphere', 'sphere'), ('hybridq', 'hybrid charge'),
+STYLES = [('hybridsq', 'hybrid sphere charge'), ('atomic', 'atomic'), ('charge', 'charge'), ('molecular', 'molecular'), ('full', 'full'), ('sphere', 'sphere'), ('hybridq', 'hybrid charge'),
           ('bond', 'bond'), ('angle', 'angle')]
 
 
@@ -249,12 +252,10 @@ def run(ctx):
                 uc.reset_units(length='angstrom', mass='amu', energy='eV', charge='e')
             else:
                 uc.reset_units(seed=1000 + i)
-            skey, sname = STYLES[i % len(STYLES)]
-            if UNITS[units]['charge'] is None and skey in ('charge', 'full', 'hybridq'):
+            skey, sname = STYLES[(i // 2) % len(STYLES)]
+            if UNITS[units]['charge'] is None and skey in ('charge', 'full', 'hybridq', 'hybridsq'):
                 skey, sname = 'atomic', 'atomic'
             ff = ffs[i % 4]
-            if skey == 'sphere':
-                d = dict(d, vel=None)          # LAMMPS sphere Velocities lines also need angular velocities
             try:
                 s = build_system(am, nu, d, units)
                 text, info = s.dump('atom_data', atom_style=sname, units=units, float_format=ff, safecopy=True)
